@@ -190,3 +190,10 @@ SPECS["C06"] = node_spec(
     "DESIGN.md section 7, C06; section 2.2-2.3",
     "Theorems: Props/C06.v over P/Election.v. Ties: (B) acceptor on P-level traces; (A) pointwise differential on Ready contents, records, hard state.",
     acceptor="pelection")
+
+SPECS["C15"] = node_spec(
+    "C15", ["log", "conf", "progress", "msgs.repl", "msgs.resp"], "snapshot",
+    "Props/C15.v (21 pinned theorems, every node state and message): a snapshot is installed only if it is not behind the commit index, the node is a follower and a member of the snapshot's configuration, and it is not a matching unrequested one; the exact effect of an install (commit = snapshot index, boundary term, unstable snapshot, next index, persisted rule, configuration = restore of the snapshot's ConfState with exactly its members tracked, promotable flag, request cleared; term/vote/role untouched); a matching snapshot that the node did not request (none pending, or below the requested index) only advances the commit index and discards nothing; the three rejection cases; the reply; the leader emits a snapshot only if the peer is recently active and either asked for one or the term/entries lookup failed (compacted), entering Snapshot state at the sent index; resumption after a status report or a caught-up acknowledgement; compaction of applied entries leaves every RaftLog query at or above the compaction point unchanged. The defect F2 found here (a delayed older snapshot truncating acknowledged entries while a request was pending) was fixed in /repo; a regression guard is pinned.",
+    "the cross-node clause (installed state equals that of a node that applied the log to the snapshot index), the application state, and the step-level frame of compaction are not proved.",
+    "DESIGN.md section 7, C15",
+    "Theorems: Props/C15.v over M/Raft.v, M/RaftLog.v, M/MemStorage.v. Tie: pointwise differential, projection log+conf+progress+replication/response traffic.")
